@@ -39,7 +39,9 @@ class C18(Prop):
         else:
             sess = community_session(rng, ver)
             agent["communities"] = [sess["community"]]
-        T = rng.choice([50_000_000, 200_000_000, 1_000_000_000, 1_500_000_000, 2_500_000_000, 10_000_000_000, 50_000_000, 1_000_000_000, 5_000_000, 123_456_789, 999_999_500, 3_600_000_000_000, 7_200_000_000_000, 86_400_000_000_000, 500, 999, 1_000, 1_500, 900_000])
+        T = rng.choice([50_000_000, 200_000_000, 1_000_000_000, 1_500_000_000, 2_500_000_000, 10_000_000_000, 50_000_000, 1_000_000_000, 5_000_000, 123_456_789, 999_999_500, 3_600_000_000_000, 7_200_000_000_000, 86_400_000_000_000, 500, 999, 1_000, 1_500, 900_000, 0])
+        if T == 0 and family == "two-sessions":
+            T = 50_000_000
         sess["timeout_ns"] = T
         if family == "two-sessions":
             # two sessions of one process with different timeouts, each seeing stray datagrams
@@ -110,6 +112,14 @@ class C18(Prop):
                 fate = "before"
             if tiny and fate == "before":
                 fate = "never"
+            if fate == "before" and k and not flood and rng.random() < 0.12 and ops[-1]["op"] == "get":
+                # the matching reply is one get() cannot present (two varbinds: SnmpError) - it ends the call
+                # all the same, and leaves the session's timeout as it was
+                d = rng.randrange(t + 1001, max(t + 1002, T - MARGIN_NS)) | 1
+                if d < T - MARGIN_NS:
+                    o = ops[-1]["oid"]
+                    items.append({"k": "custom", "pdu": "response", "varbinds": [[o, ["int", 1]], [o + ".1", ["int", 2]]], "delay_ns": d})
+                    fate = "done"
             if fate == "before":
                 # anywhere before the overall deadline, also after some strays
                 lo = 1001 if not flood else 1001 + flood * gap + 1
@@ -118,10 +128,10 @@ class C18(Prop):
                     d = T - MARGIN_NS - 1
                 items.append({"k": "genuine", "delay_ns": d})
             elif fate == "after":
-                items.append({"k": "genuine", "delay_ns": (T + MARGIN_NS + rng.randrange(1, T)) | 1})
-            else:
+                items.append({"k": "genuine", "delay_ns": (T + MARGIN_NS + rng.randrange(1, max(2, T))) | 1})
+            elif fate != "done":
                 items.append({"k": "none"})
-            if fate != "before" and not flood and rng.random() < 0.06:
+            if fate != "before" and not flood and not tiny and rng.random() < 0.06:
                 # the blocking receive is interrupted (EINTR: a signal handler ran) or fails once while the
                 # call waits: raising OSError there is in order, waiting on past the deadline is not
                 for _ in range(rng.choice([1, 1, 2, 4])):
@@ -136,7 +146,7 @@ class C18(Prop):
             # keep "before the deadline" matches clear of the time the slow client spends on strays
             for sc in scripts.values():
                 g = sc["replies"][-1]
-                if g.get("k") == "genuine" and not g.get("rewrite") and g["delay_ns"] < T:
+                if g.get("k") in ("genuine", "custom") and not g.get("rewrite") and g["delay_ns"] < T:
                     g["delay_ns"] = max(1001, min(g["delay_ns"], T - MARGIN_NS - 16 * cost)) | 1
         return {"flavour": family, "agent": agent, "sessions": [sess], "ops": ops, "scripts": scripts, "latency_ns": 1_000_001, "recv_cost_ns": cost}
 
@@ -231,6 +241,16 @@ class C18(Prop):
             elif "ok" in res:
                 if late > slack:
                     out.append(V("C18.returned-late", "call returned a value %.6f s after the request; timeout is %.3f s (%d stray datagrams, match arrived at %.6f s)" % ((res["t1"] - t_tx) / 1e9, T / 1e9, strays_before, (match_arrivals[0][0] - t_tx) / 1e9 if match_arrivals else -1), flavour=run.plan["flavour"]))
+            elif oracle.exchange_verdict(run, s, ex)[0] == MATCH and not is_refresh and oracle.expect_get(oracle.exchange_verdict(run, s, ex)[1])[0] == "exc":
+                # a matching reply did reach the call (in the grey zone near the deadline that nothing is
+                # demanded about) and it is one that get() answers with an exception: in order unless late
+                if late > slack:
+                    out.append(V("C18.returned-late", "%s raised %.6f s after the request; timeout is %.3f s" % (res["exc"]["exc"], (res["t1"] - t_tx) / 1e9, T / 1e9), flavour=run.plan["flavour"]))
+            elif T == 0 and "BlockingIOError" in res["exc"]["mro"]:
+                # timeout 0 = a non-blocking session: "nothing there yet" is what a zero wait amounts to
+                run.sim.count("probe.zero-timeout")
+                if late > slack:
+                    out.append(V("C18.returned-late", "BlockingIOError raised %.6f s after the request; timeout is 0" % ((res["t1"] - t_tx) / 1e9), flavour=run.plan["flavour"]))
             else:
                 out.append(V("C18.wrong-exception", "no matching reply within the timeout: expected TimeoutError, got %s" % _short(res), exc=res["exc"]["exc"]))
             if res["t1"] < deadline - MARGIN_NS and "exc" in res and oracle.exc_is(res["exc"], "TimeoutError"):
